@@ -34,6 +34,8 @@ using V2d  = Eigen::Vector2d;
 using V3d  = Eigen::Vector3d;
 using VXd  = Eigen::VectorXd;
 using VSO3 = std::vector<SO3d>;
+using VVX  = std::vector<Eigen::VectorXd>;               // elements may have different lengths ("ragged")
+using VVVX = std::vector<std::vector<Eigen::VectorXd>>;  // nested
 
 // ------------------------------------------------------------------ argument / result types
 
@@ -75,6 +77,41 @@ struct AT<VSO3>
   }
 };
 
+template<>
+struct AT<VVX>
+{
+  // tangent layout of a std::vector of manifolds = concatenation of the elements' tangents in order
+  static std::string json(const VVX & a)
+  {
+    std::string s = "{\"k\":\"B\",\"parts\":[";
+    for (std::size_t i = 0; i < a.size(); ++i) s += (i ? "," : "") + AT<VXd>::json(a[i]);
+    return s + "]}";
+  }
+  static void coeffs(const VVX & a, std::vector<double> & c)
+  {
+    c.clear();
+    for (const auto & v : a)
+      for (Eigen::Index i = 0; i < v.size(); ++i) c.push_back(v(i));
+  }
+};
+template<>
+struct AT<VVVX>
+{
+  static std::string json(const VVVX & a)
+  {
+    std::string s = "{\"k\":\"B\",\"parts\":[";
+    for (std::size_t i = 0; i < a.size(); ++i) s += (i ? "," : "") + AT<VVX>::json(a[i]);
+    return s + "]}";
+  }
+  static void coeffs(const VVVX & a, std::vector<double> & c)
+  {
+    c.clear();
+    for (const auto & vv : a)
+      for (const auto & v : vv)
+        for (Eigen::Index i = 0; i < v.size(); ++i) c.push_back(v(i));
+  }
+};
+
 template<class A> struct TN;
 #define VH_TN(T, S) template<> struct TN<T> { static const char * name() { return S; } }
 VH_TN(SO3d, "SO3d");
@@ -86,6 +123,8 @@ VH_TN(V3d, "Vector3d");
 VH_TN(VXd, "VectorXd");
 VH_TN(double, "double");
 VH_TN(VSO3, "std::vector<SO3d>");
+VH_TN(VVX, "std::vector<VectorXd>");
+VH_TN(VVVX, "std::vector<std::vector<VectorXd>>");
 #undef VH_TN
 
 template<class A>
@@ -759,6 +798,167 @@ struct SBun : SBase
   }
 };
 
+// ---- std::vector of dynamic-size vectors (equal-length and ragged) and nested std::vector arguments.
+// The tangent of such an argument is the concatenation of the elements' tangents in order; the callables are
+// polynomial maps of the concatenated coordinates with a different coefficient on every coordinate, so that a
+// perturbation applied to the wrong coordinate shows in the Jacobian / Hessian.
+
+static VXd flat(const VVX & a)
+{
+  Eigen::Index n = 0;
+  for (const auto & v : a) n += v.size();
+  VXd x(n);
+  Eigen::Index k = 0;
+  for (const auto & v : a)
+    for (Eigen::Index i = 0; i < v.size(); ++i) x(k++) = v(i);
+  return x;
+}
+static VVX rvv(Rng & r, const std::vector<int> & sizes, int cls)
+{
+  VVX a;
+  for (int n : sizes) a.push_back(rvecx(r, n, cls == 3 ? 0 : cls));
+  return a;
+}
+// concatenation of the parts 1..m of argument (tree) a
+static std::string CatParts(const std::string & a, int m)
+{
+  std::string s = Part(a, m);
+  for (int i = m - 1; i >= 1; --i) s = Cat(Part(a, i), s);
+  return s;
+}
+// sum_i +-(i+3+shift)/64 x_i + sum_i x_i x_(i+1)/128 + x_(n-1)^2/16 + x_0^2/32 + 1/4  on variables off .. off+n-1 of nv
+static std::vector<Term> generic_terms(int nv, int off, int n, int shift)
+{
+  std::vector<Term> t;
+  auto E = [&](int i, int pi, int j = -1, int pj = 0) {
+    std::vector<int> e(static_cast<std::size_t>(nv), 0);
+    e[static_cast<std::size_t>(off + i)] += pi;
+    if (j >= 0) e[static_cast<std::size_t>(off + j)] += pj;
+    return e;
+  };
+  for (int i = 0; i < n; ++i) t.push_back({((i % 2) ? -1.0 : 1.0) * (i + 3 + shift) / 64.0, E(i, 1)});
+  for (int i = 0; i + 1 < n; ++i) t.push_back({1.0 / 128.0, E(i, 1, i + 1, 1)});
+  t.push_back({1.0 / 16.0, E(n - 1, 2)});
+  t.push_back({1.0 / 32.0, E(0, 2)});
+  t.push_back({0.25, std::vector<int>(static_cast<std::size_t>(nv), 0)});
+  return t;
+}
+
+// polynomial map of one ragged std::vector<VectorXd> {3,4,2} -> VectorXd[3]
+struct FVVMap : Base
+{
+  using Args = std::tuple<VVX>;
+  Poly p;
+  FVVMap()
+  {
+    for (int k = 0; k < 3; ++k) p.push_back(generic_terms(9, 0, 9, 2 * k));
+  }
+  std::string name() const { return "vvmap.ragged342"; }
+  VXd operator()(const VVX & a) const
+  {
+    const VXd x = flat(a);
+    VXd out(3);
+    for (int i = 0; i < 3; ++i) out(i) = poly_eval(p[static_cast<std::size_t>(i)], x);
+    return out;
+  }
+  std::string ast(const Args &) const { return PolyNode(p, CatParts(A(1), 3)); }
+  Wits wits(const Args &) const { return {}; }
+  static Args sample(Rng & r, int cls) { return {rvv(r, {3, 4, 2}, cls)}; }
+};
+
+// scalar of (ragged std::vector<VectorXd> {1,5}, SO3d):  p(x) + c . (g . u(x)),  u_k = x_(k+1)/2 + x_0/8
+struct SVVRag : SBase
+{
+  using Args                = std::tuple<VVX, SO3d>;
+  static constexpr int plan = FULL;
+  Poly lin, pout;
+  SVVRag()
+  {
+    lin.resize(3);
+    for (int k = 0; k < 3; ++k) {
+      std::vector<int> e1(6, 0), e0(6, 0);
+      e1[static_cast<std::size_t>(k + 1)] = 1;
+      e0[0]                               = 1;
+      lin[static_cast<std::size_t>(k)]    = {{0.5, e1}, {0.125, e0}};
+    }
+    // variables of the outer polynomial: a1 a2 a3 (= g . u), x0 .. x5
+    pout.resize(1);
+    const double c[3] = {0.5, -0.25, 0.75};
+    for (int k = 0; k < 3; ++k) {
+      std::vector<int> e(9, 0);
+      e[static_cast<std::size_t>(k)] = 1;
+      pout[0].push_back({c[k], e});
+    }
+    for (const auto & t : generic_terms(9, 3, 6, 0)) pout[0].push_back(t);
+  }
+  std::string name() const { return "svv.ragged15_SO3"; }
+  double operator()(const VVX & a, const SO3d & g) const
+  {
+    const VXd x = flat(a);
+    const V3d u(poly_eval(lin[0], x), poly_eval(lin[1], x), poly_eval(lin[2], x));
+    Eigen::Matrix<double, 9, 1> y;
+    y << g * u, x;
+    return poly_eval(pout[0], y);
+  }
+  std::string ast(const Args &) const
+  {
+    const std::string X = CatParts(A(1), 2);
+    return PolyNode(pout, Cat(Act(A(2), PolyNode(lin, X)), X));
+  }
+  Wits wits(const Args &) const { return {}; }
+  static Args sample(Rng & r, int cls) { return {rvv(r, {1, 5}, cls), relem<SO3d>(r, cls, 0.8)}; }
+};
+
+// scalar polynomial of (Vector2d, ragged std::vector<VectorXd> {2,2,3}, double)
+struct SVV223 : SBase
+{
+  using Args = std::tuple<V2d, VVX, double>;
+  Poly p;
+  SVV223() { p = {generic_terms(10, 0, 10, 0)}; }
+  std::string name() const { return "svv.v2_ragged223_s"; }
+  double operator()(const V2d & v, const VVX & a, const double & s) const
+  {
+    Eigen::Matrix<double, 10, 1> x;
+    x << v, flat(a), s;
+    return poly_eval(p[0], x);
+  }
+  std::string ast(const Args &) const { return PolyNode(p, Cat(A(1), Cat(CatParts(A(2), 3), A(3)))); }
+  Wits wits(const Args &) const { return {}; }
+  static Args sample(Rng & r, int cls) { return {rvec<2>(r, cls), rvv(r, {2, 2, 3}, cls), coord(r, cls == 3 ? 2 : cls)}; }
+};
+
+// scalar polynomial of one equal-length std::vector<VectorXd> {3,3}
+struct SVVEq : SBase
+{
+  using Args = std::tuple<VVX>;
+  Poly p;
+  SVVEq() { p = {generic_terms(6, 0, 6, 1)}; }
+  std::string name() const { return "svv.equal33"; }
+  double operator()(const VVX & a) const { return poly_eval(p[0], flat(a)); }
+  std::string ast(const Args &) const { return PolyNode(p, CatParts(A(1), 2)); }
+  Wits wits(const Args &) const { return {}; }
+  static Args sample(Rng & r, int cls) { return {rvv(r, {3, 3}, cls)}; }
+};
+
+// scalar polynomial of (nested ragged std::vector<std::vector<VectorXd>> {{2,3},{1}}, double)
+struct SNest : SBase
+{
+  using Args                = std::tuple<VVVX, double>;
+  static constexpr int plan = FULL;
+  Poly p;
+  SNest() { p = {generic_terms(7, 0, 7, 2)}; }
+  std::string name() const { return "snest.ragged23_1_s"; }
+  double operator()(const VVVX & a, const double & s) const
+  {
+    Eigen::Matrix<double, 7, 1> x;
+    x << flat(a[0]), flat(a[1]), s;
+    return poly_eval(p[0], x);
+  }
+  std::string ast(const Args &) const { return PolyNode(p, Cat(CatParts(Part(A(1), 1), 2), Cat(Part(Part(A(1), 2), 1), A(2)))); }
+  Wits wits(const Args &) const { return {}; }
+  static Args sample(Rng & r, int cls) { return {VVVX{rvv(r, {2, 3}, cls), rvv(r, {1}, cls)}, coord(r, cls == 3 ? 2 : cls)}; }
+};
+
 // ---- callables that provide their own derivatives.  The members return matrices that are NOT the
 // true derivatives (distinctive values computed from the arguments), so that "verbatim" is observable.
 
@@ -924,6 +1124,16 @@ using F0 = AJ;
 using F0 = ARef;
 #elif VH_FN == 34
 using F0 = AGrp;
+#elif VH_FN == 35
+using F0 = FVVMap;
+#elif VH_FN == 36
+using F0 = SVVRag;
+#elif VH_FN == 37
+using F0 = SVV223;
+#elif VH_FN == 38
+using F0 = SVVEq;
+#elif VH_FN == 39
+using F0 = SNest;
 #else
 #error "unknown VH_FN"
 #endif
